@@ -26,7 +26,7 @@ TRUSTED_BASE = [
 ]
 ASSUMPTIONS = ["connected targets (the quantifier); targets with isolated vertices hit the known finding D3 of C02"]
 
-LC_METHODS = [None, "lc_with_iso", "random", "random_with_iso", "linear", "depth_first", "rgs"]
+LC_METHODS = [None, "lc_with_iso", "random", "random_with_iso", "random_with_rep", "linear", "depth_first", "rgs"]
 
 
 def local_comp(adj, v):
@@ -66,7 +66,7 @@ def relabel_by_map(adj, rmap):
     return b
 
 
-def run_setting(ctx, res, drv, adj, kw, seed, pending, default=False):
+def run_setting(ctx, res, drv, adj, kw, seed, pending, default=False, scramble=False):
     import networkx as nx
     from graphiq.solvers.alternate_target_solver import AlternateTargetSolver, AlternateTargetSolverSetting
 
@@ -75,7 +75,16 @@ def run_setting(ctx, res, drv, adj, kw, seed, pending, default=False):
     res.evaluations += 1
     try:
         setting = AlternateTargetSolverSetting() if default else AlternateTargetSolverSetting(**kw)
-        solver = AlternateTargetSolver(target=nx.from_numpy_array(adj), solver_setting=setting, seed=seed)
+        # the target graph object: same labelled graph, but (half of the time) with a scrambled node insertion order —
+        # `adj` is indexed by vertex label, and the entry's map sends vertex labels to photon numbers
+        target_graph = nx.Graph()
+        order = list(range(n))
+        if scramble:
+            ctx.rng.shuffle(order)
+        target_graph.add_nodes_from(order)
+        target_graph.add_edges_from((u, v) for u in range(n) for v in range(u + 1, n) if adj[u, v])
+        inp["node_insertion_order"] = order
+        solver = AlternateTargetSolver(target=target_graph, solver_setting=setting, seed=seed)
         out = solver.solve()
     except Exception as e:  # noqa: BLE001
         res.count("errors", err_class(e))
@@ -186,9 +195,12 @@ def run(ctx, budget=1.0):
             method = rng.choice([m for m in LC_METHODS if m not in ("rgs", "linear")])
             kw = dict(n_iso_graphs=rng.choice([1, 2, 5]), n_lc_graphs=rng.choice([1, 3, 10]), lc_method=method,
                       sort_emit=rng.random() < 0.5, lc_orbit_depth=rng.choice([None, 1, 2]))
-            run_setting(ctx, res, drv, adj, kw, rng.randrange(1, 1000), pending)
+            run_setting(ctx, res, drv, adj, kw, rng.randrange(1, 1000), pending, scramble=rng.random() < 0.5)
+        if adj.shape[0] >= 3 and rng.random() < 0.5:
+            # repeats are allowed inside one orbit walk: only the final de-duplication keeps the listed graphs distinct
+            run_setting(ctx, res, drv, adj, dict(n_iso_graphs=1, n_lc_graphs=10, lc_method="random_with_rep"), rng.randrange(1, 1000), pending)
         if rng.random() < 0.3:
-            run_setting(ctx, res, drv, adj, {}, rng.randrange(1, 1000), pending, default=True)
+            run_setting(ctx, res, drv, adj, {}, rng.randrange(1, 1000), pending, default=True, scramble=rng.random() < 0.5)
         if len(pending) > 60:
             flush(res, drv, pending)
     for method, adjs in special.items():
